@@ -55,8 +55,22 @@ def gen_params(rng, tier):
             if not (o + i * w <= x < o + (i + 1) * w):
                 continue
             sx.append([x, i])
+    # a CentrallyBin with decimal centres, probed on the midpoints between neighbouring centres and the floats next to
+    # them: a value belongs to the nearest centre, the upper one on a tie.  Only values for which the exact rule and the
+    # floating-point midpoint (a + b) / 2 agree are kept.
+    cs = sorted(rng.sample([-2.0, -1.3, -0.4, 0.3, 0.7, 0.8, 1.9, 3.1, 4.6, 10.1], rng.randint(2, 5)))
+    cx = []
+    for a, b in zip(cs, cs[1:]):
+        m = (a + b) / 2.0
+        for x in (m, math.nextafter(m, -math.inf), math.nextafter(m, math.inf), a, b):
+            exact_upper = Fraction(x) >= (Fraction(a) + Fraction(b)) / 2
+            float_upper = not (x < (a + b) / 2.0)
+            if exact_upper != float_upper:
+                continue
+            # the index among all centres: nearest centre overall (x lies between a and b, or is a or b itself)
+            cx.append([x, cs.index(b) if exact_upper else cs.index(a)])
     return {"spec": spec, "stream": stream, "perm_seed": rng.randint(0, 10**9), "edge": {"n": n, "low": low, "high": high, "xs": xs[:12]},
-            "sparse_edge": {"w": w, "o": o, "xs": sx[:12]}}
+            "sparse_edge": {"w": w, "o": o, "xs": sx[:12]}, "central_mid": {"cs": cs, "xs": cx[:14]}}
 
 
 def build(p):
@@ -87,6 +101,8 @@ def build(p):
         expect.append(("pycheck", "c02_edge_reference", "eb"))
     if p.get("sparse_edge") and p["sparse_edge"]["xs"]:
         ops.append(("c02sparse", p["sparse_edge"]))
+    if p.get("central_mid") and p["central_mid"]["xs"]:
+        ops.append(("c02central", p["central_mid"]))
     ops.append(("new", "zf", spec))
     # the closed-form specification of the stream (model: denote) against the filled implementation state
     ops.append(("denote", "dn", "zf", stream, "b"))
@@ -130,6 +146,18 @@ def _all_ok(py, replies, i):
 
 class C02Exec(execs.PyExec):
     def apply(self, op):
+        if op[0] == "c02central":
+            e = op[1]
+            h = gen.hg.CentrallyBin(e["cs"], lambda x: x)
+            want = [0.0] * len(e["cs"])
+            for x, i in e["xs"]:
+                h.fill(x, 2.0)
+                want[i] += 2.0
+            got = [v.entries for _, v in h.bins]
+            if got != want:
+                return ("violation: CentrallyBin(%r) filled at %r: bins %r, the nearest-centre rule (ties upwards) gives %r"
+                        % (e["cs"], [x for x, _ in e["xs"]], got, want))
+            return "ok"
         if op[0] != "c02sparse":
             return super().apply(op)
         e = op[1]
@@ -146,6 +174,7 @@ class C02Exec(execs.PyExec):
 
 
 execs.PY_ONLY_OPS.add("c02sparse")
+execs.PY_ONLY_OPS.add("c02central")
 
 
 def make_py():
